@@ -38,6 +38,17 @@ let run_est (c : Caseio.case) =
   List.iteri
     (fun k o ->
       let ks = string_of_int k in
+      if o = "mv" || o = "ma" then begin
+        let target, source = c17_move fops !st in
+        st := target;
+        Caseio.out_int ("ret" ^ ks) 1;
+        Caseio.out_int ("movedfrom_win" ^ ks) (int_of_nat (c17_window fops source));
+        Caseio.out_int ("win" ^ ks) (int_of_nat (c17_window fops target));
+        out_cols ("hist" ^ ks) d (c17_history fops target);
+        Caseio.out_int ("meth" ^ ks) (method_index (c17_method fops target));
+        let (sm, wm), em = c17_caches fops target in
+        out_vec ("smw" ^ ks) sm; out_vec ("wmw" ^ ks) wm; out_vec ("emw" ^ ks) em
+      end else
       let mop =
         if o = "e2" || o = "e5" then begin
           let w = vec_of (Caseio.get_mat c ("W" ^ ks)) in
@@ -83,6 +94,14 @@ let run_hb (c : Caseio.case) =
   List.iteri
     (fun k o ->
       let ks = string_of_int k in
+      if o = "mv" || o = "ma" then begin
+        let target, source = c17_hb_move fops !h in
+        h := target;
+        Caseio.out_int ("ret" ^ ks) 1;
+        Caseio.out_int ("movedfrom_win" ^ ks) (int_of_nat (c17_hb_window fops source));
+        Caseio.out_int ("win" ^ ks) (int_of_nat (c17_hb_window fops target));
+        out_cols ("hist" ^ ks) d (c17_hb_get fops target)
+      end else
       let mop =
         if o = "a" then HAdd (vec_of (Caseio.get_mat c ("X" ^ ks)))
         else if starts_with o "s:" then
